@@ -42,8 +42,8 @@ impl Property for C09 {
         "generated histories (restarts, GC position records, delete / re-create, multi-frame batches) are run to a clean \
          WAL image; then EVERY frame still present in that image (all when <= 400, else a generated stride subset) is \
          damaged in turn by an alteration of 1..n bytes confined to that frame's payload or CRC bytes (bit flip + xor, \
-         zero-fill, xor run; lengths 1, <=8, <=64, whole payload). Oracle: open returns Ok and every record of the final \
-         model state whose append call did not write the damaged frame is present, byte-identical (additional records or \
+         zero-fill, xor run; lengths 1, <=8, <=64, whole payload). Oracle: open returns Ok and every record the undamaged log \
+         returned after its final clean restart, and whose append call did not write the damaged frame, is present, byte-identical (additional records or \
          queues resurrected by a lost truncate / delete are allowed: the property speaks of loss only). evaluations = \
          damaged images opened. non-trivial = the damaged frame belongs to a control entry (create / position / truncate \
          / delete), or is a First/Middle/Last frame of a multi-frame entry, or touches a block end, or belongs to an \
@@ -84,8 +84,8 @@ impl Property for C09 {
         let mut deleted: std::collections::BTreeSet<String> = Default::default();
         for sop in &ops {
             let step = exec.step(sop)?;
-            exec.check_outcome(&step)?;
-            match (&step.cop, &step.expected) {
+            exec.usable_or_skip(&step)?;
+            match (&step.cop, &step.real.outcome) {
                 (COp::Delete { q }, Outcome::Deleted) => {
                     deleted.insert(q.text());
                 }
@@ -96,12 +96,16 @@ impl Property for C09 {
                 }
                 _ => {}
             }
-            outcomes.push(step.expected.clone());
+            outcomes.push(step.real.outcome.clone());
         }
+        // the retained records as the real log shows them after the final clean restart (model-free)
+        let final_state = match exec.driver.observe() {
+            Ok(state) => state,
+            Err(_) => return Err(CaseError::Skip("live-state-unobservable".to_string())),
+        };
         exec.driver.close()?;
         let final_image = exec.selfcheck_image(&Image::default())?;
-        let final_state = exec.model.state();
-        let appended = super::c03::appended_index(&exec.appended, &exec.cops, &outcomes);
+        let appended = super::c03::really_appended_index(&exec.really_appended);
         let frames = exec.driver.tracer.frames.clone();
         let live = live_frames(&frames, &final_image);
         let history_hash = hash64(&exec.cops);
